@@ -136,6 +136,9 @@ def to_dt(t, keep_ids=True):
 
     ch = None if t[1] is None else [to_dt(c, keep_ids) for c in t[1]]
     i = tid(t) if keep_ids else None
+    if i is not None and i >= DT.next_id:
+        # nodes ISLa creates later must not reuse an identity given out here (DerivationTree.from_json does the same)
+        DT.next_id = i + 1
     return DT(t[0], ch, id=i)
 
 
